@@ -85,7 +85,14 @@ let cells_of_body (body : string) : stats_cells =
 
 type rec_run = { rid : n; rarg : int option; rrun : run }
 
+(* the first token "P=<n>" is the machine's parallelism as probed by the harness *)
+let par_of_runs (s : string) : n =
+  match List.filter (fun x -> String.length x > 2 && String.sub x 0 2 = "P=") (split ' ' s) with
+  | p :: _ -> n_of_string (String.sub p 2 (String.length p - 2))
+  | [] -> n_of_small 1
+
 let parse_runs (s : string) : rec_run list option =
+  let s = String.concat " " (List.filter (fun x -> not (String.length x > 2 && String.sub x 0 2 = "P=")) (split ' ' s)) in
   if s = "?" then None
   else if s = "" then Some []
   else Some (List.map (fun r ->
@@ -103,7 +110,7 @@ let parse_runs (s : string) : rec_run list option =
    argument cases are removed, then benchmarks without argument cases and
    groups without children.  [remap id i] is the declared index of the i-th
    surviving argument case. *)
-let parse_case (case : string) (runs : rec_run list) : action * node list * (n -> int -> int) =
+let parse_case (par : n) (case : string) (runs : rec_run list) : action * node list * (n -> int -> int) =
   let tbl : (string, run list) Hashtbl.t = Hashtbl.create 64 in
   let key id arg = string_of_n id ^ ":" ^ (match arg with None -> "-" | Some a -> string_of_int a) in
   List.iter (fun r ->
@@ -117,6 +124,11 @@ let parse_case (case : string) (runs : rec_run list) : action * node list * (n -
         let k = int_of_string toks.(i + 1) in
         for j = 1 to k do Hashtbl.replace drops toks.(i + 1 + j) () done
       end) toks;
+  (* raw thread lists ("P" = the machine's parallelism), normalised by the extracted model of
+     run_bench_entry: 0 -> parallelism, then sort, then dedup *)
+  let raw_threads th = List.map (fun x -> if x = "P" then par else n_of_string x) (split ',' th) in
+  let cli_threads = ref None in
+  Array.iteri (fun i t -> if t = "T" then cli_threads := Some (raw_threads toks.(i + 1))) toks;
   let kept_tbl : (string, int array) Hashtbl.t = Hashtbl.create 16 in
   let pos = ref 0 in
   let next () = let t = toks.(!pos) in incr pos; t in
@@ -143,7 +155,10 @@ let parse_case (case : string) (runs : rec_run list) : action * node list * (n -
           Some (List.map (fun () -> pct_decode (next ())) (List.init k (fun _ -> ())))
         end in
       let th = next () in
-      let threads = if th = "-" then [] else List.map n_of_string (split ',' th) in
+      let raw = (match !cli_threads with
+          | Some l when action <> AList -> l      (* runtime options override the entry's *)
+          | _ -> if th = "-" then [] else raw_threads th) in
+      let threads = norm_threads par raw in
       let _beh = next () in
       (match args_all with
        | None ->
@@ -196,7 +211,7 @@ let tree_mode line =
   match parse_runs runs with
   | None -> "no-run-records"
   | Some rs ->
-    let (a, t, _) = parse_case case rs in
+    let (a, t, _) = parse_case (par_of_runs runs) case rs in
     (match paint a t with
      | Ok (_, out) -> "ok " ^ esc (utf8_of_cps out)
      | Panic p -> "panic " ^ string_of_panic p)
@@ -206,7 +221,7 @@ let tree_check line =
   let (head, runs) = split_at_marker impl in
   match toks head, parse_runs runs with
   | ["ok"; text], Some rs ->
-    let (a, t, remap) = parse_case case rs in
+    let (a, t, remap) = parse_case (par_of_runs runs) case rs in
     let out = cps_of_utf8 (unesc text) in
     let inv_model = List.map (fun ((id, arg), _tc) -> (id, (match arg with None -> None | Some i -> Some (remap id (int_of_nat i))))) (all_calls a t) in
     let inv_impl = List.map (fun r -> (r.rid, r.rarg)) rs in
